@@ -68,6 +68,9 @@ pub mod timers;
 pub(crate) mod utils;
 pub use crate::utils::infbounds::*;
 
+#[cfg(feature = "verif-hooks")]
+pub mod verif_hooks;
+
 #[cfg(feature = "python")]
 pub mod python;
 
